@@ -122,7 +122,6 @@ def check_C01(tier: str, seed: int) -> int:
         nbig = 0
         for cnt in [(65535, 0), (65535, 65535), (1, 65535)]:
             # exactly 65535 chunks in frame 0: an old-format header (new = 0) whose count equals 0xFFFF, and the two other spellings
-            # (implementation against the expectation only in the quick tier: the model is slow on such frames)
             nbig += 1
             s = gen.gen_sprite(rng, max_canvas=5, max_layers=4, max_frames=2)
             ch = gen.default_choices()
@@ -132,7 +131,7 @@ def check_C01(tier: str, seed: int) -> int:
         corpus = corpus_files()
         paths = [c[0] for c in cases] + corpus
         ib = vplib.impl_observe("release", paths, w.dir, 1)
-        bigidx = set(range(len(cases) - nbig, len(cases))) if tier == "quick" else set()
+        bigidx = set()                          # (the model handles 65535-chunk frames in well under a second since frev)
         small = [i for i in range(len(paths)) if i not in bigidx]
         mres = vplib.model_observe([paths[i] for i in small], w.dir, 1)
         mb = list(ib)
@@ -1758,7 +1757,7 @@ def check_C07(tier: str, seed: int) -> int:
                 paths.append(w.put(data))
             groups.append((s, enc))
         # a frame of exactly 65535 chunks: the count fits the old field alone (old = 65535 = 0xFFFF, new = 0), both, or the new field
-        big = set()      # the model is slow on 65535-chunk frames: these inputs are checked on the implementation only
+        big = set()
         for _ in range(1 if tier == "quick" else 4):
             s = gen.gen_sprite(rng, max_canvas=5, max_layers=3, max_frames=2)
             enc = []
@@ -1772,12 +1771,24 @@ def check_C07(tier: str, seed: int) -> int:
                 paths.append(w.put(data))
             groups.append((s, enc))
         ib = vplib.impl_observe("release", paths, w.dir, 15, max_frames=4, max_layers=6)
-        small = [i for i in range(len(paths)) if i not in big or tier != "quick"]
+        small = list(range(len(paths)))        # (the model handles 65535-chunk frames in well under a second since frev)
         mres = vplib.model_observe([paths[i] for i in small], w.dir, 15, max_frames=4, max_layers=6)
         mb = list(ib)
         for i, r in zip(small, mres):
             mb[i] = r
         corr_fail, direct_fail = [], []
+        # the same files through the path-based entry point (read_file) and through a small BufReader: same result as the slice
+        lines = []
+        for pth in paths:
+            lines += ["%s plain" % pth, "%s file" % pth, "%s bufreader 7" % pth]
+        sb = run_sched([vplib.impl_driver("release"), "sched"], lines, w.dir, "c07sched", False)
+        for i, pth in enumerate(paths):
+            a, b, c = sb[3 * i], sb[3 * i + 1], sb[3 * i + 2]
+            if a is None or b is None or c is None or a[0] != b[0] or a[0] != c[0]:
+                direct_fail.append({"what": "read_file / a buffered reader and read(&bytes) give different results for the same bytes (a header field the "
+                                            "format declares unused, or the way the bytes arrive, decides)",
+                                    "slice": a[0][:2] if a else None, "read_file": b[0][:2] if b else None, "bufreader": c[0][:2] if c else None,
+                                    "_data": open(pth, "rb").read()})
         for s, enc in groups:
             ref = ib[enc[0][0]]
             for idx, ch, data in enc:
@@ -1890,7 +1901,13 @@ def c10_program(seq: List[str], uds: List[dict], splits: Tuple[int, ...] = ()):
             if key in owner:
                 return None
             owner[key] = u
-            chunks0.append(ase.UserDataChunk(text=u["text"], color=u["color"]))
+            udc = ase.UserDataChunk(text=u["text"], color=u["color"])
+            if u.get("flags") is not None:
+                # further bits of the flag word are set (bit 4 = the properties block Aseprite 1.3 appends, or reserved bits):
+                # text and colour are still announced by bits 1 and 2 alone
+                udc.flags = u["flags"]
+                udc.tail = u.get("tail", b"")
+            chunks0.append(udc)
     bounds = [0] + starts + [len(chunks0)]
     chunks0.frames = [list(chunks0[bounds[i]:bounds[i + 1]]) for i in range(len(bounds) - 1)]
     return chunks0, owner, nlayers, nslices, ntags
@@ -1921,7 +1938,10 @@ def check_C10(tier: str, seed: int) -> int:
         import itertools
         maxlen = 4 if tier == "quick" else 5
         uds = [{"text": "a", "color": None}, {"text": None, "color": (1, 2, 3, 4)}, {"text": "été", "color": (255, 0, 255, 0)},
-               {"text": None, "color": None}, {"text": "", "color": None}]
+               {"text": None, "color": None}, {"text": "", "color": None},
+               {"text": "p", "color": (9, 8, 7, 6), "flags": 7, "tail": ase.u32(12) + ase.u32(0) + ase.u32(0)},
+               {"text": "q", "color": None, "flags": 0x80000001}, {"text": None, "color": (1, 1, 1, 1), "flags": 6, "tail": ase.u32(8) + ase.u32(0)},
+               {"text": "r", "color": None, "flags": 5, "tail": b"\1\2\3"}]
         cases = []
         nseq = 0
         for n in range(1, maxlen + 1):
@@ -1929,7 +1949,7 @@ def check_C10(tier: str, seed: int) -> int:
                 nseq += 1
                 if "ud" not in seq:
                     continue
-                prog = c10_program(list(seq), uds[nseq % 3:] + uds[:nseq % 3])
+                prog = c10_program(list(seq), uds[nseq % 9:] + uds[:nseq % 9])
                 if prog is None:
                     continue
                 cases.append((list(seq), prog))
